@@ -512,6 +512,19 @@ def teval(t: Term, env: dict):
         for x in a[1:]:
             args.append(None if isinstance(x, Sym) and x.name in ("param:self", "param:cls") else _arg(x))
         return env["__calls__"][a[0].obj.name](*args)
+    if op == "dict" and all(isinstance(kv_, App) and kv_.op == "kv" and len(kv_.args) == 2 for kv_ in a):
+        # a mapping literal: the keys must have values; a value that has none here (a library object, ...) is an opaque object
+        d_ = {}
+        for kv_ in a:
+            try:
+                v_ = ev(kv_.args[1])
+            except Unknown:
+                v_ = Stub("opaque:" + repr(kv_.args[1])[:40])
+            try:
+                d_[ev(kv_.args[0])] = v_
+            except TypeError as e:
+                raise Unknown(f"dict: {e}")
+        return d_
     if op == "list":
         out_ = []
         for x in a:
